@@ -118,11 +118,21 @@ Qed.
 Lemma after_app env a b : after env (a ++ b) = after (after env a) b.
 Proof. revert env. induction a as [|x a IH]; intros env; [reflexivity|]. cbn [app after]. apply IH. Qed.
 
+(* pass0 of the real rewriter hoists a ':=' initialiser of a for statement into a fresh block around the loop (the harness
+   applies the same lowering to the source abstraction, lib/structcheck.py src_stmt): every occurrence keeps its scope list *)
+Lemma hoist_scope env i c p b : ostmt env (SBlock [i; SFor None c p b]) = ostmt env (SFor (Some i) c p b).
+Proof. rewrite ostmt_block, !ostmt_for. cbn [ol oopt declo app]. rewrite !app_nil_r. reflexivity. Qed.
+
 (* ---- the side condition (syntactic, on the input of pass2) ---- *)
 Definition is_branch (s : stmt) : bool := match s with SBreak | SContinue | SFallthrough => true | _ => false end.
 Definition init_nd (i : option stmt) : bool :=
   match i with None => true | Some (SAtom a) => negb (dcl a) | Some (SYield _) => true | _ => false end.
-Definition post_ok (p : option stmt) : bool := match p with None => true | Some (SAtom _) => true | _ => false end.
+(* no statement of the list declares anything in the list's own block *)
+Definition nds (l : list stmt) : bool := forallb (fun s => match decl s with [] => true | _ => false end) l.
+(* the post statement of a loop with body [b]: absent, an atom, or a Yield when the body declares nothing in its own block
+   (the rewriter may append a yielding post statement to the body block: finding F3) *)
+Definition post_ok (p : option stmt) (b : list stmt) : bool :=
+  match p with None => true | Some (SAtom _) => true | Some (SYield _) => nds b | _ => false end.
 
 Fixpoint sok (s : stmt) {struct s} : bool :=
   let soks := fix go (l : list stmt) {struct l} : bool :=
@@ -133,7 +143,7 @@ Fixpoint sok (s : stmt) {struct s} : bool :=
                    match e with ENone => true | EElse b => soks b | EElif x => match x with SIf _ _ _ _ => sok x | _ => false end end
   | SSwitch i tag cs => init_nd i && (fix go (l : list (clabel * list stmt)) : bool :=
                                         match l with [] => true | (_, b) :: r => soks b && go r end) cs
-  | SFor i c p b => init_nd i && post_ok p && soks b
+  | SFor i c p b => init_nd i && post_ok p b && soks b
   | SRet XReturn => true
   | SRet _ => false
   | _ => true
@@ -152,7 +162,7 @@ Proof.
   { induction l as [|[lab b] r IH]; [reflexivity|]. cbn [sokc]. rewrite <- IH. reflexivity. }
   rewrite <- H. reflexivity.
 Qed.
-Lemma sok_for i c p b : sok (SFor i c p b) = init_nd i && post_ok p && soks b.
+Lemma sok_for i c p b : sok (SFor i c p b) = init_nd i && post_ok p b && soks b.
 Proof. reflexivity. Qed.
 Lemma sok_if i c t e : sok (SIf i c t e) =
   match i with None => true | Some (SAtom _) => true | _ => false end && soks t &&
@@ -260,8 +270,41 @@ Proof.
   - destruct x; reflexivity.
 Qed.
 
-Lemma hasYo_post p : post_ok p = true -> hasYo p = false.
-Proof. destruct p as [[]|]; try discriminate; reflexivity. Qed.
+Lemma post_ok_inv p b : post_ok p b = true -> hasYo p = false \/ (exists v, p = Some (SYield v)) /\ nds b = true.
+Proof. destruct p as [[]|]; try discriminate; intros H; try (left; reflexivity). right. split; [eexists; reflexivity|exact H]. Qed.
+
+(* ---- a block whose statements declare nothing in it stays such a block ---- *)
+Definition ND (l : list stmt) : Prop := Forall (fun s => decl s = []) l.
+Definition Knd (k : blk -> res blk) : Prop := forall c r, ND (bstmts c) -> k c = OK r -> ND (bstmts r).
+
+Lemma nds_ND l : nds l = true -> ND l.
+Proof.
+  unfold nds, ND. rewrite forallb_forall, Forall_forall. intros H x Hx. specialize (H x Hx). destruct (decl x); [reflexivity|discriminate].
+Qed.
+Lemma after_ND env l : ND l -> after env l = env.
+Proof. revert env. induction l as [|x l IH]; intros env H; [reflexivity|]. inversion H; subst. cbn [after]. rewrite H2. apply IH. assumption. Qed.
+Lemma ND_snoc l s : ND l -> decl s = [] -> ND (l ++ [s]).
+Proof. intros H Hs. apply Forall_app. split; [exact H|constructor; [exact Hs|constructor]]. Qed.
+Lemma push_nd c s kd c' : push c s kd = OK c' -> ND (bstmts c) -> decl s = [] -> ND (bstmts c').
+Proof. intros H Hc Hs. destruct (push_inv _ _ _ _ H) as [-> _]. apply ND_snoc; assumption. Qed.
+Lemma pushReturn_nd c e kd c' : pushReturn c e kd = OK c' -> ND (bstmts c) -> ND (bstmts c').
+Proof. intros H Hc. destruct (pushReturn_inv _ _ _ _ H) as [-> _]. apply ND_snoc; [assumption|reflexivity]. Qed.
+Lemma gln_nd c c' : gln c = OK c' -> ND (bstmts c) -> ND (bstmts c').
+Proof. intros H Hc. destruct (gln_inv _ _ H) as [_ [->| ->]]; [exact Hc|apply ND_snoc; [exact Hc|reflexivity]]. Qed.
+Lemma pushk_nd cur s kd k r : ND (bstmts cur) -> decl s = [] -> Knd k -> (c <- push cur s kd ;; k c) = OK r -> ND (bstmts r).
+Proof. intros Hc Hs Hk H. destruct (bind_inv _ _ _ H) as [c [Hp Hkc]]. exact (Hk c r (push_nd _ _ _ _ Hp Hc Hs) Hkc). Qed.
+Lemma retk_nd cur e kd k r : ND (bstmts cur) -> Knd k -> (c <- pushReturn cur e kd ;; k c) = OK r -> ND (bstmts r).
+Proof. intros Hc Hk H. destruct (bind_inv _ _ _ H) as [c [Hp Hkc]]. exact (Hk c r (pushReturn_nd _ _ _ _ Hp Hc) Hkc). Qed.
+Lemma comb_nd cur k r : ND (bstmts cur) -> Knd k -> comb cur k = OK r -> ND (bstmts r).
+Proof.
+  intros Hc Hk H. unfold comb in H. change (combineRequired (markCombined cur)) with (combineRequired cur) in H.
+  destruct (combineRequired cur); cbn [negb] in H; [|exact (Hk (markCombined cur) r Hc H)].
+  destruct (bind_inv _ _ _ H) as [[[s kd] cur'] [Ep H1]]. destruct (pop_inv _ _ _ _ Ep) as [Es _]. cbn [markCombined bstmts] in Es.
+  destruct (bind_inv _ _ _ H1) as [c1 [_ H2]]. destruct (bind_inv _ _ _ H2) as [c1' [_ H3]]. destruct (bind_inv _ _ _ H3) as [fol [_ H4]].
+  apply (pushReturn_nd _ _ _ _ H4). unfold ND in *. rewrite Es in Hc. apply Forall_app in Hc. tauto.
+Qed.
+Lemma Klast_nd : Knd (fun fol => match bkind fol with KDelay => gln fol | _ => OK fol end).
+Proof. intros c r Hc H. destruct (bkind c); try (inversion H; subst; exact Hc). exact (gln_nd _ _ H Hc). Qed.
 
 Lemma init_nd_inv i : init_nd i = true ->
   i = None \/ exists x, i = Some x /\ sok x = true /\ is_branch x = false /\ decl x = [].
@@ -299,6 +342,78 @@ Proof.
   intros Hd Hk H env. destruct (bind_inv _ _ _ H) as [c [Hp Hc]].
   destruct (pushReturn_inv _ _ _ _ Hp) as [Es [Hd' _]].
   rewrite (Hk c r Hd' Hc env), Es, ol_app, after_app. cbn [ol after ostmt decl app]. rewrite app_nil_r, <- app_assoc. reflexivity.
+Qed.
+
+Lemma rw_nd f :
+  (forall ss cur r, soks ss = true -> ND ss -> ND (bstmts cur) -> rw_stmts f ss cur = OK r -> ND (bstmts r)) /\
+  (forall s isLast cur k r, sok s = true -> decl s = [] -> ND (bstmts cur) -> Knd k -> rw_stmt f s isLast cur k = OK r -> ND (bstmts r)) /\
+  (forall i c t e cur c', ND (bstmts cur) -> rw_if f (SIf i c t e) cur = OK c' -> ND (bstmts c')) /\
+  (forall init c post b cur k r, sok (SFor init c post b) = true -> ND (bstmts cur) -> Knd k ->
+      rw_for f (SFor init c post b) init c post b cur k = OK r -> ND (bstmts r)) /\
+  (forall init tag cases cur k r, sok (SSwitch init tag cases) = true -> ND (bstmts cur) -> Knd k ->
+      rw_switch f (SSwitch init tag cases) init tag cases cur k = OK r -> ND (bstmts r)).
+Proof.
+  induction f as [|f [IH1 [IH2 [IH3 [IH4 IH5]]]]]; [repeat split; intros; discriminate|].
+  assert (Hinit : forall init cur aft r, init_nd init = true -> ND (bstmts cur) -> Knd aft ->
+            match init with None => aft cur | Some i => rw_stmt f i false cur aft end = OK r -> ND (bstmts r)).
+  { intros init cur aft r Hi Hc Hk H. destruct (init_nd_inv _ Hi) as [->|[x [-> [Hx [_ Hdx]]]]].
+    - exact (Hk cur r Hc H).
+    - exact (IH2 x false cur aft r Hx Hdx Hc Hk H). }
+  split; [|split; [|split; [|split]]].
+  - intros ss cur r Hss Hn Hc H. cbn [rw_stmts] in H. destruct ss as [|s rest]; [exact (Klast_nd cur r Hc H)|].
+    destruct (soks_inv _ _ Hss) as [Hs [_ Hrest]]. inversion Hn as [|? ? Hds Hnr]; subst.
+    match type of H with rw_stmt _ _ ?il _ ?kk = _ => refine (IH2 s il cur kk r Hs Hds Hc _ H) end.
+    destruct rest as [|s2 rest2]; [exact Klast_nd|].
+    intros c r0 Hc0 H0. refine (comb_nd c _ r0 Hc0 _ H0). intros c2 r2 Hc2 H2. exact (IH1 _ c2 r2 Hrest Hnr Hc2 H2).
+  - intros s isLast cur k r Hs Hds Hc Hk H. cbn [rw_stmt] in H.
+    destruct s as [a|v|b|i c t e|i tag cs|i c p b| | | | |e].
+    + exact (pushk_nd cur _ _ k r Hc Hds Hk H).
+    + destruct isLast; destruct (bind_inv _ _ _ H) as [fol [_ Hp]]; exact (pushReturn_nd _ _ _ _ Hp Hc).
+    + destruct (bind_inv _ _ _ H) as [fol [_ H1]]. destruct (mustNoYield fol); [(refine (pushk_nd cur _ _ k r Hc _ Hk H1); reflexivity)|exact (retk_nd cur _ _ k r Hc Hk H1)].
+    + destruct (bind_inv _ _ _ H) as [c' [Hif H1]]. pose proof (IH3 _ _ _ _ _ _ Hc Hif) as Hc'.
+      destruct isLast; [exact (gln_nd _ _ H1 Hc')|exact (Hk _ _ Hc' H1)].
+    + match type of H with rw_switch _ _ _ _ _ _ ?kk = _ => refine (IH5 i tag cs cur kk r Hs Hc _ H) end.
+      intros c0 r0 Hc0 H0. destruct isLast; [|exact (Hk c0 r0 Hc0 H0)].
+      destruct (lastKind c0) as [[]|]; try exact (Hk c0 r0 Hc0 H0). exact (gln_nd _ _ H0 Hc0).
+    + exact (IH4 i c p b cur k r Hs Hc Hk H).
+    + (refine (push_nd _ _ _ _ H Hc _); reflexivity).
+    + (refine (push_nd _ _ _ _ H Hc _); reflexivity).
+    + (refine (pushk_nd cur _ _ k r Hc _ Hk H); reflexivity).
+    + (refine (push_nd _ _ _ _ H Hc _); reflexivity).
+    + (refine (pushk_nd cur _ _ k r Hc _ Hk H); reflexivity).
+  - intros i c t e cur c' Hc H. cbn [rw_if] in H. destruct (hasYo i); [discriminate|].
+    destruct (bind_inv _ _ _ H) as [body [_ H1]]. clear H.
+    destruct e as [|b|alt].
+    + destruct (mustNoYield body); (refine (push_nd _ _ _ _ H1 Hc _); reflexivity).
+    + destruct (bind_inv _ _ _ H1) as [els [_ H2]]. destruct (mustNoYield body && mustNoYield els); (refine (push_nd _ _ _ _ H2 Hc _); reflexivity).
+    + destruct (bind_inv _ _ _ H1) as [els [_ H2]]. destruct (mustNoYield body && mustNoYield els); (refine (push_nd _ _ _ _ H2 Hc _); reflexivity).
+  - intros init c post b cur k r Hs Hc Hk H. cbn [rw_for] in H. rewrite sok_for in Hs.
+    apply andb_prop in Hs. destruct Hs as [Hs _]. apply andb_prop in Hs. destruct Hs as [Hi _].
+    destruct (bind_inv _ _ _ H) as [body [_ H1]]. clear H.
+    destruct (negb (hasYo init) && negb (hasYo post) && mustNoYield body); [(refine (pushk_nd cur _ _ k r Hc _ Hk H1); reflexivity)|].
+    refine (Hinit init cur _ r Hi Hc _ H1). intros c2 r2 Hc2 H2.
+    assert (Hk1 : forall s0 kd, Knd (fun c3 => c4 <- push c3 s0 kd ;; k c4) \/ True) by (intros; right; exact I).
+    destruct (mustNoYield body && negb (hasYo post)).
+    + refine (comb_nd c2 _ r2 Hc2 _ H2). intros c3 r3 Hc3 H3. (refine (pushk_nd c3 _ _ k r3 Hc3 _ Hk H3); reflexivity).
+    + destruct (negb (hasYo post)).
+      * refine (comb_nd c2 _ r2 Hc2 _ H2). intros c3 r3 Hc3 H3. exact (retk_nd c3 _ _ k r3 Hc3 Hk H3).
+      * destruct post as [p|]; [|discriminate]. destruct (bind_inv _ _ _ H2) as [body' [_ H3]].
+        refine (comb_nd c2 _ r2 Hc2 _ H3). intros c3 r3 Hc3 H4. exact (retk_nd c3 _ _ k r3 Hc3 Hk H4).
+  - intros init tag cases cur k r Hs Hc Hk H. cbn [rw_switch] in H. rewrite sok_switch in Hs.
+    apply andb_prop in Hs. destruct Hs as [Hi _].
+    destruct (bind_inv _ _ _ H) as [[cases' allTrivial] [_ H1]]. clear H.
+    destruct (negb (hasYo init) && allTrivial); [(refine (pushk_nd cur _ _ k r Hc _ Hk H1); reflexivity)|].
+    refine (Hinit init cur _ r Hi Hc _ H1). intros c2 r2 Hc2 H2. destruct allTrivial.
+    + (refine (pushk_nd c2 _ _ k r2 Hc2 _ Hk H2); reflexivity).
+    + refine (comb_nd c2 _ r2 Hc2 _ H2). intros c3 r3 Hc3 H3. (refine (pushk_nd c3 _ _ k r3 Hc3 _ Hk H3); reflexivity).
+Qed.
+
+Lemma rw_yield_last f v cur k r : rw_stmt f (SYield v) true cur k = OK r ->
+  exists fol, bstmts r = bstmts cur ++ [SRet (XBind v (TLit fol))] /\ forall env, ol env fol = [].
+Proof.
+  destruct f; [discriminate|]. cbn [rw_stmt]. intros H. destruct (bind_inv _ _ _ H) as [fol [Hf Hp]].
+  destruct (pushReturn_inv _ _ _ _ Hp) as [Es _]. exists (bstmts fol). split; [exact Es|].
+  intros env. rewrite (gln_ol _ _ Hf). reflexivity.
 Qed.
 
 Lemma rw_scope f :
@@ -394,21 +509,58 @@ Proof.
     intros init c post b cur k R r Hs Hd Hk H env. cbn [rw_for] in H. rewrite sok_for in Hs.
     apply andb_prop in Hs. destruct Hs as [Hs Hb]. apply andb_prop in Hs. destruct Hs as [Hi Hp].
     destruct (bind_inv _ _ _ H) as [body [Hbody H1]]. clear H. pose proof (Hsub _ _ _ Hb Hbody) as Eb.
-    rewrite (hasYo_post _ Hp) in H1. cbn [negb] in H1. rewrite !andb_true_r in H1.
-    destruct (negb (hasYo init) && mustNoYield body).
-    + exact (pushk_scope cur _ KTrivial k R r Hd Hk (or_introl eq_refl) H1 env).
-    + assert (Haft : Kspec (fun c2 => if mustNoYield body
-                then comb c2 (fun c3 => c4 <- push c3 (SFor None c post b) KTrivial ;; k c4)
-                else comb c2 (fun c3 => c4 <- pushReturn c3 (XFor (option_map CExp c) post (XDelay (TLit (bstmts body)))) KFor ;; k c4))
-              (fun e => ostmt e (SFor None c post b) ++ R e)).
-      { intros c2 r2 Hd2 H2 env2. destruct (mustNoYield body).
-        - refine (comb_scope c2 _ (fun e => ostmt e (SFor None c post b) ++ R e) r2 Hd2 _ H2 env2). intros c3 r3 Hd3 H3 env3.
-          exact (pushk_scope c3 _ KTrivial k R r3 Hd3 Hk (or_introl eq_refl) H3 env3).
-        - refine (comb_scope c2 _ (fun e => ostmt e (SFor None c post b) ++ R e) r2 Hd2 _ H2 env2). intros c3 r3 Hd3 H3 env3.
-          rewrite (retk_scope c3 _ KFor k R r3 Hd3 Hk H3 env3), ostmt_for. cbn [oexp declo app oopt]. rewrite othunk_lit, Eb.
-          destruct c as [c|]; cbn [option_map]; rewrite <- ?app_assoc; reflexivity. }
-      rewrite (Hinit init cur _ _ r Hi Hd Haft H1 env), !ostmt_for.
-      destruct (init_nd_inv _ Hi) as [->|[x [-> [_ [_ Hdx]]]]]; cbn [declo oopt app]; rewrite ?Hdx; cbn [app]; rewrite <- ?app_assoc; reflexivity.
+    destruct (post_ok_inv _ _ Hp) as [Hpy|[[v Epost] Hnd]].
+    { rewrite Hpy in H1. cbn [negb] in H1. rewrite !andb_true_r in H1.
+      destruct (negb (hasYo init) && mustNoYield body).
+      + exact (pushk_scope cur _ KTrivial k R r Hd Hk (or_introl eq_refl) H1 env).
+      + assert (Haft : Kspec (fun c2 => if mustNoYield body
+                  then comb c2 (fun c3 => c4 <- push c3 (SFor None c post b) KTrivial ;; k c4)
+                  else comb c2 (fun c3 => c4 <- pushReturn c3 (XFor (option_map CExp c) post (XDelay (TLit (bstmts body)))) KFor ;; k c4))
+                (fun e => ostmt e (SFor None c post b) ++ R e)).
+        { intros c2 r2 Hd2 H2 env2. destruct (mustNoYield body).
+          - refine (comb_scope c2 _ (fun e => ostmt e (SFor None c post b) ++ R e) r2 Hd2 _ H2 env2). intros c3 r3 Hd3 H3 env3.
+            exact (pushk_scope c3 _ KTrivial k R r3 Hd3 Hk (or_introl eq_refl) H3 env3).
+          - refine (comb_scope c2 _ (fun e => ostmt e (SFor None c post b) ++ R e) r2 Hd2 _ H2 env2). intros c3 r3 Hd3 H3 env3.
+            rewrite (retk_scope c3 _ KFor k R r3 Hd3 Hk H3 env3), ostmt_for. cbn [oexp declo app oopt]. rewrite othunk_lit, Eb.
+            destruct c as [c|]; cbn [option_map]; rewrite <- ?app_assoc; reflexivity. }
+        rewrite (Hinit init cur _ _ r Hi Hd Haft H1 env), !ostmt_for.
+        destruct (init_nd_inv _ Hi) as [->|[x [-> [_ [_ Hdx]]]]]; cbn [declo oopt app]; rewrite ?Hdx; cbn [app]; rewrite <- ?app_assoc; reflexivity.
+    }
+    subst post. change (hasYo (Some (SYield v))) with true in H1. cbn [negb] in H1. rewrite andb_false_r in H1. cbn [andb] in H1.
+    pose proof (proj1 (rw_nd f) b (mkBlock KFor) body Hb (nds_ND _ Hnd) (Forall_nil _) Hbody) as Hndb.
+    assert (Ebody' : forall body', (if combineRequired body
+               then pb <- rw_stmt f (SYield v) true (mkBlock KDelay) (fun x => OK x) ;;
+                    match lastStmt pb with
+                    | Some (SRet _) => b1 <- gln body ;; pushReturn (mkBlock (bkind body)) (XCombine (XDelay (TLit (bstmts b1))) (XDelay (TLit (bstmts pb)))) KCombine
+                    | _ => Err E_POST_NOT_RETURN
+                    end
+               else rw_stmt f (SYield v) true (markCombined body) (fun x => OK x)) = OK body' ->
+             forall e, ol e (bstmts body') = ol e b ++ [(OU v, e)]).
+    { intros body' Hb' e. destruct (combineRequired body).
+      - destruct (bind_inv _ _ _ Hb') as [pb [Hpb H2]]. destruct (rw_yield_last _ _ _ _ _ Hpb) as [fol [Epb Hfol]].
+        cbn [mkBlock bstmts app] in Epb. unfold lastStmt in H2. rewrite Epb in H2. cbn [map last] in H2.
+        destruct (bind_inv _ _ _ H2) as [b1 [Hb1 H3]]. destruct (pushReturn_inv _ _ _ _ H3) as [Es _]. cbn [mkBlock bstmts app] in Es.
+        rewrite Es. cbn [ol ostmt oexp]. rewrite !othunk_lit, (gln_ol _ _ Hb1), Eb. cbn [ol ostmt oexp]. rewrite othunk_lit, Hfol, !app_nil_r. reflexivity.
+      - destruct (rw_yield_last _ _ _ _ _ Hb') as [fol [Es Hfol]]. cbn [markCombined bstmts] in Es.
+        rewrite Es, ol_app, Eb, (after_ND _ _ Hndb). cbn [ol ostmt oexp]. rewrite othunk_lit, Hfol, !app_nil_r. reflexivity. }
+    set (aft := fun c2 : blk =>
+           body' <- (if combineRequired body
+               then pb <- rw_stmt f (SYield v) true (mkBlock KDelay) (fun x => OK x) ;;
+                    match lastStmt pb with
+                    | Some (SRet _) => b1 <- gln body ;; pushReturn (mkBlock (bkind body)) (XCombine (XDelay (TLit (bstmts b1))) (XDelay (TLit (bstmts pb)))) KCombine
+                    | _ => Err E_POST_NOT_RETURN
+                    end
+               else rw_stmt f (SYield v) true (markCombined body) (fun x => OK x)) ;;
+           comb c2 (fun c3 => c4 <- pushReturn c3 (XFor (option_map CExp c) None (XDelay (TLit (bstmts body')))) KFor ;; k c4)).
+    assert (Haft : Kspec aft (fun e => ostmt e (SFor None c (Some (SYield v)) b) ++ R e)).
+    { intros c2 r2 Hd2 H2 env2. unfold aft in H2. destruct (bind_inv _ _ _ H2) as [body' [Hb' H3]].
+      refine (comb_scope c2 _ (fun e => ostmt e (SFor None c (Some (SYield v)) b) ++ R e) r2 Hd2 _ H3 env2). intros c3 r3 Hd3 H4 env3.
+      rewrite (retk_scope c3 _ KFor k R r3 Hd3 Hk H4 env3), ostmt_for. cbn [oexp declo app oopt ostmt]. rewrite othunk_lit, (Ebody' _ Hb').
+      destruct c as [c|]; cbn [option_map]; rewrite <- ?app_assoc; reflexivity. }
+    assert (H1' : match init with None => aft cur | Some i => rw_stmt f i false cur aft end = OK r).
+    { destruct (mustNoYield body); exact H1. }
+    rewrite (Hinit init cur aft _ r Hi Hd Haft H1' env), !ostmt_for.
+    destruct (init_nd_inv _ Hi) as [->|[x [-> [_ [_ Hdx]]]]]; cbn [declo oopt app]; rewrite ?Hdx; cbn [app]; rewrite <- ?app_assoc; reflexivity.
   - (* rw_switch *)
     intros init tag cases cur k R r Hs Hd Hk H env. cbn [rw_switch] in H. rewrite sok_switch in Hs.
     apply andb_prop in Hs. destruct Hs as [Hi Hc].
